@@ -291,11 +291,33 @@ def check(P: Project, R: Report) -> None:
     R.ob("R5", "callback call is not in an inner loop", not any(cb in list(walk_local(l)) for l in walk_local(W.loop) if isinstance(l, (ast.For, ast.While, ast.AsyncFor)) and l is not W.loop), f"{wrel}:{cb.lineno}", "")
     # the token: generated per call with uuid4, put into params._meta.progressToken, and passed to the wait
     tok_src = ast.unparse(W.binding[tok_param])
-    tok_def = [s for s in walk_local(send.node) if isinstance(s, ast.Assign) and ast.unparse(s.targets[0]) == tok_src and not (isinstance(s.value, ast.Constant) and s.value.value is None)]
+    # names that are plain copies of one another in send_message (`b = a`, `x, y = (a, b)`): one value, several names
+    alias = {}
+
+    def find(x):
+        while alias.get(x, x) != x:
+            x = alias[x]
+        return x
+
+    for s_ in walk_local(send.node):
+        if isinstance(s_, ast.Assign) and len(s_.targets) == 1:
+            t, v = s_.targets[0], s_.value
+            pairs = []
+            if isinstance(t, ast.Name) and isinstance(v, ast.Name):
+                pairs = [(t.id, v.id)]
+            elif isinstance(t, ast.Tuple) and isinstance(v, ast.Tuple) and len(t.elts) == len(v.elts):
+                pairs = [(a.id, b.id) for a, b in zip(t.elts, v.elts) if isinstance(a, ast.Name) and isinstance(b, ast.Name)]
+            for a, b in pairs:
+                ra, rb = find(a), find(b)
+                if ra != rb:
+                    alias[ra] = rb
+    same = lambda a, b: find(a) == find(b)  # noqa: E731
+    tok_def = [s_ for s_ in walk_local(send.node) if isinstance(s_, ast.Assign) and len(s_.targets) == 1 and isinstance(s_.targets[0], ast.Name) and same(s_.targets[0].id, tok_src)
+               and not isinstance(s_.value, ast.Name) and not (isinstance(s_.value, ast.Constant) and s_.value.value is None)]
     ok_tok = len(tok_def) == 1 and "uuid.uuid4()" in ast.unparse(tok_def[0].value)
-    R.ob("R5", "progress token is a fresh uuid4 per request", ok_tok, srel, f"definitions {[ast.unparse(s) for s in tok_def]}")
-    meta = [s for s in walk_local(send.node) if isinstance(s, ast.Assign) and ast.unparse(s.targets[0]) == "params['_meta']['progressToken']"]
-    R.ob("R5", "the token sent in params._meta.progressToken is the awaited one", len(meta) == 1 and ast.unparse(meta[0].value) == tok_src, srel, f"{[ast.unparse(s) for s in meta]}")
+    R.ob("R5", "progress token is a fresh uuid4 per request", ok_tok, srel, f"definitions {[ast.unparse(s_) for s_ in tok_def]}")
+    meta = [s_ for s_ in walk_local(send.node) if isinstance(s_, ast.Assign) and ast.unparse(s_.targets[0]).endswith("['_meta']['progressToken']")]
+    R.ob("R5", "the token sent in params._meta.progressToken is the awaited one", len(meta) == 1 and isinstance(meta[0].value, ast.Name) and same(meta[0].value.id, tok_src), srel, f"{[ast.unparse(s_) for s_ in meta]}")
 
 
 def _const_text(P: Project, f: FuncInfo, text: str) -> str:
